@@ -35,6 +35,8 @@ type fmtDir struct {
 	P     string   `json:"p"`
 	I3    int      `json:"i3"`
 	Verb  string   `json:"verb"`
+	WNum  int      `json:"wnum"` // explicit width / precision numbers (sweep); 0 = draw
+	PNum  int      `json:"pnum"` // -1 = explicit zero
 }
 
 type fmtEntry struct {
@@ -88,7 +90,13 @@ func renderFormat(c *fmtCase, rng *rand.Rand) (string, string, []int) {
 		w(idxText(d.I1))
 		switch d.W {
 		case "num":
-			w(strconv.Itoa(1 + rng.Intn(12)))
+			if d.WNum > 0 {
+				w(strconv.Itoa(d.WNum))
+			} else if rng.Intn(6) == 0 {
+				w(strconv.Itoa([]int{20, 33, 64, 100, 300}[rng.Intn(5)])) // beyond the formatter's fixed scratch buffers
+			} else {
+				w(strconv.Itoa(1 + rng.Intn(12)))
+			}
 		case "star":
 			w("*")
 		}
@@ -97,7 +105,17 @@ func renderFormat(c *fmtCase, rng *rand.Rand) (string, string, []int) {
 			w(idxText(d.I2))
 			switch d.P {
 			case "num":
-				w(strconv.Itoa(rng.Intn(9)))
+				if d.PNum != 0 {
+					if d.PNum < 0 {
+						w("0")
+					} else {
+						w(strconv.Itoa(d.PNum))
+					}
+				} else if rng.Intn(6) == 0 {
+					w(strconv.Itoa([]int{20, 33, 60, 64, 68, 100, 300}[rng.Intn(7)]))
+				} else {
+					w(strconv.Itoa(rng.Intn(9)))
+				}
 			case "star":
 				w("*")
 			}
@@ -145,7 +163,8 @@ var fmtFloats = []float64{0, math.Copysign(0, -1), 1, 1.5, -2.25, 0.1, 1e21, 1e2
 	math.NaN(), math.Inf(1), math.Inf(-1), math.MaxFloat64, math.SmallestNonzeroFloat64, -1e100, 3.141592653589793, 0.000123, 255}
 var fmtStrings = []string{"", "hi", "héllo", "\xff\xfe", "a\tb\n", "日本語", "q\"'`\\", "x\x00y", "  \U0001F600", "a\xc3", "%d", "long string with spaces"}
 var fmtBytesVals = [][]byte{{}, {1, 2, 255}, []byte("hi"), []byte("h\xffé"), {0}, nil}
-var fmtWidths = []int64{0, 1, 5, -4, 12, 3, 20, -1, 2}
+var fmtRunes = []int64{65, 0xe9, 0x20AC, 0x1F600, 0x10000, 0x1F4A9, 0x10FFFF, 0xD800, 0x110000, 0, 0x7f, 0x80, 0x2028}
+var fmtWidths = []int64{0, 1, 5, -4, 12, 3, 20, -1, 2, 60, 64, 70, 130, -70}
 
 func randArg(rng *rand.Rand, kinds string) fmtArg {
 	k := kinds[rng.Intn(len(kinds))]
@@ -580,6 +599,10 @@ func drawArgs(c *fmtCase, rng *rand.Rand) []fmtArg {
 	for k, e := range c.T.Trace {
 		if k < len(c.Dirs) && e.Arg >= 0 && e.Arg < len(args) {
 			args[e.Arg] = randArg(rng, kindsForVerb(c.Dirs[k].Verb))
+			// the verbs that read an int as a code point get code points of every UTF-8 length (and non-code-points) more often
+			if v := c.Dirs[k].Verb; (v == "U" || v == "c" || v == "q") && args[e.Arg].Kind == "int" && rng.Intn(2) == 0 {
+				args[e.Arg] = mkInt(fmtRunes[rng.Intn(len(fmtRunes))])
+			}
 		}
 	}
 	for _, e := range c.T.Trace {
@@ -608,6 +631,7 @@ func init() {
 				Seed    int64     `json:"seed"`
 				Vectors int       `json:"vectors"`
 				Script  int       `json:"script_every"`
+				Sweep   string    `json:"sweep"` // a verb: deterministic flags x width x precision x value sweep
 				// replay of one concrete instance
 				Format string        `json:"format"`
 				Args   []interface{} `json:"args"`
@@ -635,6 +659,51 @@ func init() {
 				return map[string]interface{}{"stats": stats, "mismatches": mism, "by_key": byKey}
 			}
 			rng := rand.New(rand.NewSource(in.Seed))
+			if in.Sweep != "" {
+				// deterministic sweep for one verb: flags x width x precision (incl. sizes beyond the formatter's scratch buffers) x every table value
+				flagSets := [][]string{{}, {"#"}, {"-"}, {"0"}, {"+"}, {" "}, {"#", " "}, {"#", "+"}, {"-", "0"}, {"#", "0"}}
+				widths := []int{0, 1, 7, 20, 64, 70, 130}
+				precs := []int{0, -1, 1, 5, 20, 60, 64, 68, 130}
+				var vals []fmtArg
+				for _, n := range fmtInts {
+					vals = append(vals, mkInt(n))
+				}
+				for _, n := range fmtRunes {
+					vals = append(vals, mkInt(n))
+				}
+				for _, f := range fmtFloats {
+					vals = append(vals, mkFloat(f))
+				}
+				for _, x := range fmtStrings {
+					vals = append(vals, mkStr(x))
+				}
+				for _, b := range fmtBytesVals {
+					vals = append(vals, mkBytes(b))
+				}
+				vals = append(vals, mkBool(true), mkBool(false))
+				n := 0
+				for _, fl := range flagSets {
+					for _, wn := range widths {
+						for _, pn := range precs {
+							d := fmtDir{Flags: fl, W: "none", P: "none", Verb: in.Sweep, WNum: wn, PNum: pn}
+							if wn > 0 {
+								d.W = "num"
+							}
+							if pn != 0 {
+								d.P = "num"
+							}
+							c := &fmtCase{Dirs: []fmtDir{d}, Nargs: 1}
+							c.T.Trace = []fmtEntry{{Out: "value", Arg: 0, Warg: -1, Parg: -1}}
+							for _, v := range vals {
+								format, goFormat, targs := renderFormat(c, rng)
+								n++
+								add(checkOne(c, format, goFormat, targs, []fmtArg{v}, runner, n%97 == 0, stats))
+							}
+						}
+					}
+				}
+				return map[string]interface{}{"stats": stats, "mismatches": mism, "by_key": byKey}
+			}
 			if in.Vectors == 0 {
 				in.Vectors = 4
 			}
